@@ -384,7 +384,6 @@ def C09(run):
 
 @prop('C05')
 def C05(run):
-    run.level = 'other'
     count_property(run, dict(rules=ALL, keys=['C05'], proj=proj_C05, quick=6000, thorough=150000, equal_ranks=0.0,
                              families=['coalitions', 'coalitions', 'majority', 'plain', 'chains', 'on_quota']))
     run.coverage['explanation'] = ('theorem: the one-seat majority case (lean/Props/C05.lean); the general k-quota claim is explored only: '
